@@ -112,6 +112,11 @@ def resilience_case(seed):
         pumps.append({"name": "U%d" % p, "a": a, "b": b})
     eff = rnd.choice([50.0, 65.0, 75.0, 100.0])
     price = rnd.choice([3.61e-8, 1e-7, 2.5e-8])
+    for p in pumps:                     # some pumps have their own energy price (others use the global one)
+        own = rnd.choice([None, None, 9e-8, 5e-8])
+        if own is not None:
+            wn.get_link(p["name"]).energy_price = own
+        p["price"] = num(own if own is not None else price)
     Rep = rnd.choice([900, 1800, 3600])
     wn.options.energy.global_efficiency = eff
     wn.options.energy.global_price = price
